@@ -23,13 +23,22 @@ def fixed_param(rng, kind, p, percol=None):
             return {"tuple": [im, iv]}, (imean.astype(float), ivar.astype(float))
         d = rng.integers(1, 6, size=p)
         return {"tuple": [im, ND(np.diag(d).astype(np.int64))]}, (imean.astype(float), np.diag(d).astype(float))
+    def _form(nd):
+        # array-like containers other than ndarray for a share of the 1-D parameters: list, pandas Series
+        u = rng.random()
+        if u < 0.12:
+            nd = dict(nd, form="list")
+        elif u < 0.24:
+            nd = dict(nd, form="series")
+        return nd
+
     if kind == "L2Cost":
         if k == 1 and rng.random() < 0.5:
             return float(mean[0]), float(mean[0])
-        return ND(mean), mean
+        return _form(ND(mean)), mean
     if kind == "GaussianVarCost":
         var = np.exp(rng.uniform(np.log(1e-2), np.log(1e2), size=k)).round(5)
-        return {"tuple": [ND(mean), ND(var)]}, (mean, var)
+        return {"tuple": [_form(ND(mean)), _form(ND(var))]}, (mean, var)
     if kind == "GaussianCovCost":
         if rng.random() < 0.3:
             # the documented scalar shorthand c for the covariance c * I (with a scalar or array mean)
